@@ -1,7 +1,10 @@
 """./check selftest - demonstrates that the specification is bound to the code (not part of any verdict):
  (i)  an accepted recorded trace with ONE field corrupted must be rejected by TLC;
  (ii) the same trace with one event dropped must be rejected;
- (iii) the pinned (unrepaired) cache protocol must violate Inv_C16_Safe in CodeCache.tla."""
+ (iii) the pinned (unrepaired) cache protocol must violate Inv_C16_Safe in CodeCache.tla;
+ (iv) executions of generated code recorded from the real classes are accepted by the block-step machine of their
+      setting (Trace_Gen) and rejected when one slice of the read log is split as the field loop would take it, when the
+      block's error entry is renamed after its member, or when the recording is judged under the wrong setting."""
 import copy
 import json
 import os
@@ -22,6 +25,35 @@ def _judge_fragments(traces):
         os.remove(path)
         os.rmdir(d)
     return res
+
+
+def _gen_part():
+    from bind import declgen, trace_packet as tp
+    I = lambda n, w: {"k": "Int", "name": n, "n": w, "signed": False, "endian": "default", "dflt": 0,
+                      "mv": {"kind": "none"}, "desc": {"kind": "none"}}
+    prog = {"C0": {"opts": {"sbl": -1, "endian": "none", "align": 0}, "fields": [I("a", 1), I("b", 2), I("c", 1)]}}
+    d = {"prog": prog, "root": "C0"}
+    gen = {"generate_for_pack": True, "generate_for_unpack": True, "vectorize": True, "annotate": False}
+    recs = []
+    with declgen.Scratch() as sc:
+        mod = sc.load(prog, gen)
+        for raw in ([1, 2, 3, 4], [1, 2, 3], [9, 9, 9, 9, 9]):
+            rec, _ = tp.record(mod, d, raw, 0, gen, c01=False)
+            recs.append(rec)
+    res, out = tp.judge(recs, module="Trace_Gen", workers=1)
+    acc = all(out.get(i) == [] for i in range(len(recs)))
+    print("selftest: %d recorded executions of generated code accepted by the block-step machine: %s" % (len(recs), acc))
+    bad1 = copy.deepcopy(recs[0])       # the one slice of the block split the way the field loop reads
+    bad1["cu"]["reads"] = [{"lo": 0, "hi": 1, "want": 1, "window": False}, {"lo": 1, "hi": 3, "want": 2, "window": False},
+                           {"lo": 3, "hi": 4, "want": 1, "window": False}]
+    bad2 = copy.deepcopy(recs[1])       # the failing block named after one member
+    bad2["cu"]["err"][0]["name"] = "c"
+    bad3 = copy.deepcopy(recs[1])       # judged as if the field loop had run
+    bad3["generic"] = True
+    res, out = tp.judge([bad1, bad2, bad3], module="Trace_Gen", workers=1)
+    rej = "gen_reads" in (out.get(0) or []) and "gen_err" in (out.get(1) or []) and bool(out.get(2))
+    print("selftest: split read log / renamed block entry / wrong setting -> rejected: %s (%s)" % (rej, [out.get(i) for i in range(3)]))
+    return acc and rej
 
 
 def main():
@@ -59,5 +91,6 @@ def main():
     v = asis.violation is not None and asis.violation["name"] == "Inv_C16_Safe"
     print("selftest: pinned cache protocol (Repaired = FALSE) violates Inv_C16_Safe in the model: %s" % v)
     ok &= v
+    ok &= _gen_part()
     print("selftest %s" % ("passed" if ok else "FAILED"))
     return 0 if ok else 2
